@@ -5,7 +5,7 @@ profile file, PX_-prefixed environment (split on `__`, PX_PROFILE ignored on eve
 figment's own "later merge wins" semantics is trusted.
 """
 from ..facts import callee, op_place, strip_generics
-from ..flow import Defs, backward_slice, slice_calls, slice_consts
+from ..flow import Defs, backward_slice, slice_calls, slice_consts, slice_strs
 
 LEVEL = 'other'
 CLAUSE = ('ConfigLoader::load extracts from Figment::new().merge(Yaml base.yml).merge(Yaml <profile>.yml).merge(Env PX_ split __ ignoring '
@@ -20,7 +20,7 @@ FIG = 'figment::figment::Figment::'
 COMBINATORS = {'merge', 'join', 'adjoin', 'admerge'}
 
 
-def strs_of_slice(ctx, body, sl):
+def _old_strs_of_slice(ctx, body, sl):
     out = []
     for kind, v, _, _ in slice_consts(sl):
         if kind == 'str':
@@ -83,7 +83,7 @@ def r1_merge_chain(ctx):
         pl = op_place(t['args'][1])
         sl, _ = backward_slice(body, pl['l'], defs) if pl else ([], set())
         calls = {c for c, _, _ in slice_calls(sl)}
-        strs = strs_of_slice(ctx, body, sl)
+        strs = slice_strs(ctx.fb, body, sl)
         okc = need_calls <= calls
         oks = all(any(s == x or (x == '.yml' and s.endswith('.yml')) for s in strs) for x in need_strs)
         extra = ''
